@@ -192,8 +192,10 @@ def witness(db, ctx):
     from ..facts import VERIF
     wdir = os.path.join(VERIF, "witness")
     repo = (db.meta or {}).get("repo", "/repo")
-    td = "/var/tmp/sverif-wit-%d" % os.getpid()
-    work = "/var/tmp/sverif-witsrc-%d" % os.getpid()
+    import uuid
+    tag = "%d-%s" % (os.getpid(), uuid.uuid4().hex[:8])      # the thorough tier runs several trees concurrently in one process
+    td = "/var/tmp/sverif-wit-%s" % tag
+    work = "/var/tmp/sverif-witsrc-%s" % tag
     shutil.rmtree(work, ignore_errors=True)
     shutil.copytree(wdir, work, ignore=shutil.ignore_patterns("target"))
     try:
